@@ -311,6 +311,9 @@ def direct_real(c, o):
                 bad.append((key, f"real run ({c['proposal']}): {name} false at stream position {e['pos']}"))
         if e["size"] != n:
             bad.append(("C01:size", f"real run: live set size {e['size']}"))
+        if e.get("nlive_attr", n) != n:
+            bad.append(("C01:nlive-changed", f"real run: the sampler's nlive is {e['nlive_attr']} at iteration {e['pos']} for a run started with "
+                        f"nlive={n} ({e['size']} live points)"))
         if not (e["new_logL"] > e["worst_logL"]):
             bad.append(("C01:not-strictly-greater", f"real run: {e['new_logL']} not > {e['worst_logL']}"))
         if e["rank"] != e["idx"]:
